@@ -39,13 +39,15 @@ def gen_text(name, arg, rng, size=None):
             grp = G.balanced_group(oc[0], oc[1], rng)
             parts.append(rng.choice(['f', 'x = ', 'a', '= ', '']) + grp + rng.choice([';', ' ', '', '\n']))
         elif name == 'blank':
-            parts.append(rng.choice(['\n', '  \n', '#define X\n', 'int a;\n', '\t\n', '# 1 "f"\n', 'b;\n']))
+            parts.append(rng.choice(['\n', '  \n', '#define X\n', 'int a;\n', '\t\n', '# 1 "f"\n', 'b;\n', ' #pragma x\n', 'a #b\n', ' \t \n']))
         elif name == 'comments':
             parts.append(rng.choice(['/* c */', '/* a\n b **/', 'int a; // x\n', '// y\n', 'a /*/ b */ c', 'x = 1;\n', '/**/', 'u / v * w\n']))
         elif name == 'includes':
-            parts.append(rng.choice(['#include <a.h>\n', '  # include "b.h"\n', 'int a;\n', '#define I\n', '\n', '#include <c>\n']))
+            parts.append(rng.choice(['#include <a.h>\n', '  # include "b.h"\n', 'int a;\n', '#define I\n', '\n', '#include <c>\n',
+                                     'x #include <d>\n', '// #include "e.h"\n']))
         elif name == 'line_markers':
-            parts.append(rng.choice(['# 1 "f.c"\n', '  #  22 "g.h" 2\n', 'int a;\n', '#define L 3\n', '#1\n', '\n']))
+            parts.append(rng.choice(['# 1 "f.c"\n', '  #  22 "g.h" 2\n', 'int a;\n', '#define L 3\n', '#1\n', '\n',
+                                     'int a = b #1;\n', '#define C(a) a ## 1\n', 's = "issue #12";\n', 'x # 7\n']))
         elif name == 'lines':
             parts.append(rng.choice(['int a;\n', 'b();\n', '\n', '}\n', 'x = 1;\n']))
         elif name == 'ints':
